@@ -36,7 +36,12 @@ Inductive case :=
   (* restart window: config, decoded disk, how the tombstone file read, rootKeys right after NewResolver *)
 | CWindow (tbl : list (N * N * N)) (cfg : list key) (d : obs) (tr : N) (sr : bool) (live : list key)
   (* dnssec.KeyTag observed on a real DNSKEY: flags, protocol, algorithm, decoded public key octets, tag *)
-| CTag (flags proto alg : N) (material : list N) (tag : N).
+| CTag (flags proto alg : N) (material : list N) (tag : N)
+  (* validation under a live trust set: key table, Resolver.rootKeys, a root DNSKEY response; what
+     Resolver.verifyRootKeys said (0 accepted, 1 ErrTrustAnchorsUnavailable, 2 refused otherwise) and what
+     Resolver.Resolve(., DNSKEY, CD=0) did against the scripted root serving that response (0 answered with AD,
+     4 answered without AD, 1 ErrTrustAnchorsUnavailable, 2 another error, 3 not observed) *)
+| CRootV (tbl : list (N * N * N)) (live : list key) (fe : fetch) (direct via : N).
 
 (* short constructors for the driver *)
 Definition K (m f : N) : key := mk_key m f.
@@ -345,6 +350,21 @@ Definition rfc4034_tag (flags proto alg : N) (material : list N) : N :=
                            rdata (true, 0)) in
   N.land (ac + N.land (N.shiftr ac 16) 65535) 65535.
 
+Definition rootv_code (v : rootv) : N := match v with RVAccept => 0 | RVUnavailable => 1 | RVReject => 2 end.
+Definition resolved_code (v : resolved) : N := match v with RSecure => 0 | RUnavailable => 1 | RBogus => 2 | RInsecure => 4 end.
+
+(* the specification for the consumers, judged from the trust set, the response and the observations only:
+   (fail closed) under an EMPTY trust set nothing is validated: verifyRootKeys refuses with "trust anchors
+   unavailable" and the query is refused the same way (never answered);
+   (anchored) a root DNSKEY RRset counts as authentic — verifyRootKeys accepts, or the answer carries AD — only
+   when some VALID signature over it was made with the key material of a live, non-revoked trust anchor
+   (by material: the key tag plays no part in the specification) *)
+Definition spec_rootv (live keys : list key) (sigs : list sig) (direct via : N) : bool :=
+  let anchored := existsb (fun s => s_ok s && existsb (fun k => (k_mat k =? s_mat s) && negb (is_rev k)) live) sigs in
+  (negb (is_nil live) || ((direct =? 1) && ((via =? 1) || (via =? 3)))) &&
+  (negb (direct =? 0) || is_nil keys || anchored) &&
+  (negb (via =? 0) || anchored).
+
 Definition check_case (c : case) : bool :=
   match c with
   | CHist tbl cfg init steps => check_hist tbl cfg init steps
@@ -352,6 +372,10 @@ Definition check_case (c : case) : bool :=
   | CSpec _ _ _ _ => true
   | CWindow tbl cfg d tr sr live => keys_eqb (restart_live cfg (disk_of d) (tread_of_code tr) sr) live
   | CTag flags proto alg material tag => keytag_of flags proto alg material =? tag
+  | CRootV tbl live (FResp keys sigs) direct via =>
+      (rootv_code (verify_root (tag_of tbl) live keys sigs) =? direct) &&
+      ((via =? 3) || is_nil keys || (resolved_code (resolve_root (tag_of tbl) live keys sigs) =? via))
+  | CRootV _ _ FErr _ _ => false
   end.
 
 Definition spec_case (c : case) : bool :=
@@ -365,4 +389,6 @@ Definition spec_case (c : case) : bool :=
       forallb (fun k => negb (memN (k_mat k) (recorded d)) && key_in k cfg) live &&
       match tr with 0 => true | _ => is_nil live end && (negb sr || is_nil live)
   | CTag flags proto alg material tag => rfc4034_tag flags proto alg material =? tag
+  | CRootV tbl live (FResp keys sigs) direct via => spec_rootv live keys sigs direct via
+  | CRootV _ _ FErr _ _ => false
   end.
